@@ -19,6 +19,7 @@ RULE = (
     "milliseconds); Python stack depth sampled in the same callback must not keep growing with the length; token levels must stay "
     "<= maxNesting. A family counts only if the rule function it aims at was entered >= len/20 times (or >= 3 for per-document "
     "rules). Non-trivial = counted (family, preset) pair; distinct by (family, preset)."
+    " Catalogue ~120 families incl. open-bracket blocks and quotes inside list items ended by another block."
 )
 ASSUMPTIONS = [
     "work = library function entries + loop back-edges, a deterministic measure; no wall-clock anywhere",
